@@ -11,7 +11,7 @@ env = dict(os.environ, GOFLAGS="-mod=mod", GOPROXY="off")
 
 
 def sh(cmd, cwd, timeout=1800):
-    p = subprocess.run(cmd, shell=True, cwd=cwd, env=env, stdout=subprocess.PIPE, stderr=subprocess.STDOUT, text=True, timeout=timeout)
+    p = subprocess.run(cmd, shell=True, cwd=cwd, env=env, stdout=subprocess.PIPE, stderr=subprocess.STDOUT, text=True, errors="replace", timeout=timeout)
     return p.returncode, p.stdout
 
 
@@ -44,7 +44,7 @@ def one(sid):
         for c in checks:
             t0 = time.time()
             p = subprocess.run(["./check", c, "--tier", "quick"], cwd="/verif", env=dict(os.environ, VERIF_REPO=wt, VERIF_BUILD=f"/verif/build/reseed-{sid}"),
-                               stdout=subprocess.PIPE, stderr=subprocess.STDOUT, text=True, timeout=3000)
+                               stdout=subprocess.PIPE, stderr=subprocess.STDOUT, text=True, errors="replace", timeout=3000)
             lines = [l for l in p.stdout.splitlines() if l.startswith("VIOLATION") or l.startswith("KNOWN-FINDING")]
             det[c] = {"rc": p.returncode, "violations": len([l for l in lines if l.startswith("VIOLATION")]),
                       "with_failing_input": len([l for l in lines if l.startswith("VIOLATION") and "no-failing-input-found" not in l]),
